@@ -419,7 +419,9 @@ def fn(case, ctx):
             ok2, a2 = ctx.call("dense:as_array", de.as_array)
             rows = [mdl.get(i) if mdl.arity > 1 else [mdl.get(i)] for i in range(n)]
             dt = {"bool": bool, "int": np.int64, "float": float, "complex": complex, "str": "<U32"}[mdl.typ]
-            exp = np.squeeze(np.array(rows, dtype=dt).reshape(n, mdl.arity))
+            exp = np.array(rows, dtype=dt).reshape(n, mdl.arity)
+            if mdl.arity == 1:
+                exp = exp[:, 0]      # one value per element: shape (n,); vectors: shape (n, arity)
             for ok, arr, which in ((ok1, a1, "sparse"), (ok2, a2, "dense")):
                 if ok:
                     arr = np.asarray(arr)
